@@ -180,6 +180,7 @@ type orch struct {
 	notes           []string
 	replayTimeout   time.Duration
 	shrinkLimit     int
+	shrinkBudget    time.Duration
 	maxOps          int
 	seedsTried      []uint64
 	jobsDone        []*job
@@ -321,6 +322,7 @@ func cmdOrch(args []string) {
 	o.plain, _ = os.Executable()
 	o.replayTimeout = 120 * time.Second
 	o.shrinkLimit = 400
+	o.shrinkBudget = 100 * time.Second
 	if o.dir == "" {
 		fmt.Fprintln(os.Stderr, "orch: -dir required")
 		os.Exit(exitTrouble)
@@ -684,7 +686,7 @@ func (o *orch) reportViolation(f found) int {
 			writeJSONFile(filepath.Join(o.dir, "unreproduced.json"), rf)
 			return exitTrouble
 		}
-		min, tests := Shrink(f.wl, same, o.shrinkLimit)
+		min, tests := Shrink(f.wl, same, o.shrinkLimit, o.shrinkBudget)
 		if !same(min) {
 			min = f.wl
 		}
